@@ -364,13 +364,13 @@ Definition arp_offsets (ty : Z) (n : nat) : option (list Z) :=
     else Some (intersperse0 (removelast (tl (zseq n)) ++ removelast (rev (zseq n))))
   else None.
 
-(* rv = self._notes[offset], with Python's negative indices *)
-Definition arp_notes (ty : Z) (notes : list Z) : list Z :=
-  let s := sort_notes notes in
-  match arp_offsets ty (List.length notes) with
+(* rv = self._notes[offset], with Python's negative indices; self._notes is the sorted list *)
+Definition arp_select (ty : Z) (s : list Z) : list Z :=
+  match arp_offsets ty (List.length s) with
   | Some offs => flat_map (fun o => match py_index s o with Some x => [x] | None => [] end) offs
   | None => []
   end.
+Definition arp_notes (ty : Z) (notes : list Z) : list Z := arp_select ty (sort_notes notes).
 
 (** the documented arrangements *)
 (* CONVERGE: lowest, highest, second lowest, second highest, ... *)
@@ -383,3 +383,18 @@ Fixpoint outside_in (fuel : nat) (l : list Z) : list Z :=
            end
   end.
 Definition converge_doc (l : list Z) : list Z := outside_in (List.length l) l.
+(* DIVERGE: from the middle outwards, alternating below / above *)
+Fixpoint alternate (a b : list Z) : list Z :=
+  match a with
+  | [] => b
+  | x :: a' => x :: match b with [] => a' | y :: b' => y :: alternate a' b' end
+  end.
+Definition diverge_doc (l : list Z) : list Z :=
+  let h := (List.length l / 2)%nat in
+  let lo := rev (firstn h l) in
+  let hi := skipn h l in
+  if Nat.even (List.length l) then alternate lo hi
+  else match hi with [] => [] | m :: hi' => m :: alternate lo hi' end.
+(* UPDOWN: up, then down without repeating the top; DOWNUP likewise from the top *)
+Definition updown_doc (l : list Z) : list Z := removelast l ++ rev l.
+Definition downup_doc (l : list Z) : list Z := removelast (rev l) ++ l.
